@@ -4,7 +4,7 @@
     chalk-recursive's [RecursiveContext<K,V>], compared with the real generic engine on every
     run).  Proofs: Engine/RecInv.v, RecEval.v, RecSolve.v, RecTheorems.v; witnesses:
     Engine/RecWitness.v.  [repaired] is the engine with the three repairs (F3, F4, F15). *)
-From Chalk Require Import Engine.RecTheorems.
+From Chalk Require Import Engine.RecTheorems Engine.AndOrEval.
 
 (** Every cache entry is the declarative (three-valued) value of its goal, after ANY history of
     root solves -- interrupted, panicking or complete -- for every and-or graph without mixed
@@ -48,6 +48,12 @@ Proof.
   exact (rec_history_independent_lemma G Hwf Hnm cf1 cf2 0 [] 0 [] f1 f2 g v1 v2 s1 s2 V1 V2
            (fun _ H => match H with end) (fun _ H => match H with end) Hg R1 Q1 R2 Q2).
 Qed.
+
+(** The executable evaluator the checks use as the oracle on and-or graphs (the real engine's
+    cache contents and answers are compared with it on every run) computes exactly the
+    declarative value the theorems above talk about. *)
+Theorem andor_eval_correct : forall G n, sem G n (eval G n).
+Proof. exact eval_correct. Qed.
 
 (** F15 on the faithful model of the UNCHANGED engine: a history changes the answer. *)
 Theorem rec_history_refuted :
